@@ -31,7 +31,26 @@ BASE = 0x400000
 SAN_ENV = {"ASAN_OPTIONS": "detect_leaks=0:abort_on_error=0:allocator_may_return_null=1",
            "UBSAN_OPTIONS": "print_stacktrace=0"}
 EV_IDS = {100001: 24, 100003: 24, 100002: 16, 100004: 16, 100005: 16, 100006: 16, 100011: 4}
-CMDS = ["replay", "report", "graph", "dump", "info"]
+PLAIN = [("replay", ["replay"]), ("report", ["report"]), ("graph", ["graph"]), ("dump", ["dump"]), ("info", ["info"])]
+# option variants of the five commands: other consumers of the same readers (per-task data, output formats, field lists)
+VARIANTS = [
+    ("report --task", ["report", "--task"]),
+    ("graph --task", ["graph", "--task"]),
+    ("dump --chrome", ["dump", "--chrome"]),
+    ("replay -f +task..", ["replay", "-f", "+tid,task,time,elapsed,delta,addr,module"]),
+    ("dump --flame-graph", ["dump", "--flame-graph"]),
+    ("dump --graphviz", ["dump", "--graphviz"]),
+    ("replay --no-merge", ["replay", "--no-merge"]),
+    ("report -s self,call", ["report", "-s", "self,call"]),
+    ("info --task", ["info", "--task"]),
+    ("info --symbols", ["info", "--symbols"]),
+    ("report --diff", ["report", "--diff", "d"]),
+    ("dump --mermaid", ["dump", "--mermaid"]),
+    ("report -f ..", ["report", "-f", "total,self,call,total-avg,self-max"]),
+    ("graph -f ..", ["graph", "-f", "total,self,addr"]),
+]
+CMDS = [c for c, _ in PLAIN]
+ARGV = dict(PLAIN + VARIANTS)
 
 # Eight defect classes found by this check were repaired in /repo (known-findings.txt `fixed: property=C12 ...`):
 # partial-args, partial-header-time, payload-cut-time, info-empty-value, task-exename-cut, sym-empty-header-value,
@@ -155,17 +174,36 @@ def gen_case(rng, nrec, small=True, nested=False, minstr=0):
     while nested and stack:
         fi, ad = stack.pop()
         exit_(fi, len(stack), ad)
+    extra = []
+    if nested:
+        # a forked child (FORK line) and a thread (TASK line), each with a small payload-free task file of its own
+        for tid, ppid in ((101, 100), (102, None)):
+            er, d0 = [], []
+            for _ in range(rng.randrange(2, 4)):
+                fi = rng.randrange(0, nfun + 1)
+                er.append(dict(hdr(0, len(d0), BASE + syms[fi][0], 0), pl=("none",)))
+                d0.append(fi)
+            while d0:
+                fi = d0.pop()
+                er.append(dict(hdr(1, len(d0), BASE + syms[fi][0], 0), pl=("none",)))
+            extra.append({"tid": tid, "pid": tid if ppid else 100, "ppid": ppid, "start": er[0]["t"] - 1, "recs": er})
     argspec = ";".join("%s@%s" % (names[i], ",".join("arg%d/%s" % (j + 1, a) for j, a in enumerate(specs[i][0])))
                        for i in range(len(names)) if specs[i][0])
     retspec = ";".join("%s@retval/%s" % (names[i], specs[i][1][0]) for i in range(len(names)) if specs[i][1])
-    return {"syms": syms, "specs": specs, "recs": recs, "argspec": argspec, "retspec": retspec}
+    return {"syms": syms, "specs": specs, "recs": recs, "argspec": argspec, "retspec": retspec, "extra": extra}
 
 
 def desc_of(case, tid=100):
-    recs = [dict(t=r["t"], type=r["type"], depth=r["depth"], addr=r["addr"], more=r["more"], payload=payload_of(r))
-            for r in case["recs"]]
+    def conv(rs):
+        return [dict(t=r["t"], type=r["type"], depth=r["depth"], addr=r["addr"], more=r["more"], payload=payload_of(r)) for r in rs]
+    tasks = [{"tid": tid, "pid": tid, "recs": conv(case["recs"])}]
+    for e in case.get("extra") or []:
+        t = {"tid": e["tid"], "pid": e["pid"], "start": e["start"], "recs": conv(e["recs"])}
+        if e.get("ppid"):
+            t["ppid"] = e["ppid"]
+        tasks.append(t)
     return {"syms": case["syms"], "base": BASE, "args": True, "events": True,
-            "tasks": [{"tid": tid, "pid": tid, "recs": recs}], "exename": "/fake/prog", "cmdline": "uftrace record prog"}
+            "tasks": tasks, "exename": "/fake/prog", "cmdline": "uftrace record prog"}
 
 
 def write_dir(case, d):
@@ -339,6 +377,9 @@ def case_json(case, full, n=None, impl=None):
                                          else [r["pl"][1].hex()] if r["pl"][0] == "event" else [])}
                   for r in case["recs"]],
          "file_hex": full.hex()}
+    if case.get("extra"):
+        j["extra"] = [{"tid": e["tid"], "pid": e["pid"], "ppid": e.get("ppid"), "start": e["start"],
+                       "recs": [[r["t"], r["type"], r["depth"], r["addr"]] for r in e["recs"]]} for e in case["extra"]]
     if n is not None:
         j["cut"] = n
     if impl is not None:
@@ -357,8 +398,11 @@ def case_from_json(j):
         else:
             pl = ("none",)
         recs.append(dict(t=r["t"], type=r["type"], depth=r["depth"], addr=r["addr"], more=r["more"], pl=pl))
+    extra = [{"tid": e["tid"], "pid": e["pid"], "ppid": e.get("ppid"), "start": e["start"],
+              "recs": [dict(t=r[0], type=r[1], depth=r[2], addr=r[3], more=0, pl=("none",)) for r in e["recs"]]}
+             for e in j.get("extra", [])]
     return {"syms": [tuple(s) for s in j["syms"]], "specs": [(a, r) for a, r in j["specs"]], "recs": recs,
-            "argspec": j["argspec"], "retspec": j["retspec"]}
+            "argspec": j["argspec"], "retspec": j["retspec"], "extra": extra}
 
 
 def evaluate_stream(ctx, cases, results, name="stream"):
@@ -400,7 +444,7 @@ def viol(ctx, kind, what, replay, found=True, cap=3):
 def stream_tie(ctx, objdir, harness):
     rng = ctx.rng
     todo = []
-    ncase = ctx.n(12, 80)
+    ncase = ctx.n(10, 60)
     for i in range(ncase):
         small = i % 3 != 2
         case = gen_case(rng, rng.randrange(3, 9) if small else rng.randrange(6, 14), small=small)
@@ -478,6 +522,7 @@ def classify_cut(spans, n):
 # ---------------------------------------------------------------------------------- end-to-end
 def canon_out(s):
     s = re.sub(r"# recorded on.*", "# recorded on X", s)
+    s = re.sub(r'"recorded_time":"[^"]*"', '"recorded_time":"X"', s)       # dump --chrome: mtime of the info file
     return s
 
 
@@ -488,8 +533,9 @@ def benign_ubsan(err):
     return all("null pointer passed as argument" in l for l in lines)
 
 
-def run_cmds(uft, root, files, env=None):
-    """files: {name: bytes}; runs the five commands on a fresh directory `d` under root; returns {cmd: (rc, out, err)}"""
+def run_cmds(uft, root, files, cmds=None):
+    """files: {name: bytes}; runs the commands (labels of ARGV; default: the five plain ones) on a fresh directory `d`
+    under root; returns {label: (rc, out, err)}"""
     d = os.path.join(root, "d")
     os.makedirs(d)
     for name, b in files.items():
@@ -499,12 +545,12 @@ def run_cmds(uft, root, files, env=None):
 
     def limit():        # a command that prints for ever is stopped by SIGXFSZ instead of filling memory or the disk
         resource.setrlimit(resource.RLIMIT_FSIZE, (4 << 20, 4 << 20))
-    for c in CMDS:
-        so, se = os.path.join(root, "out." + c), os.path.join(root, "err." + c)
+    for i, c in enumerate(cmds or CMDS):
+        so, se = os.path.join(root, "out.%d" % i), os.path.join(root, "err.%d" % i)
         try:
             with open(so, "wb") as fo, open(se, "wb") as fe:
-                p = subprocess.run(["timeout", "-s", "KILL", "10", uft, c, "--no-pager", "-d", "d"], cwd=root, stdout=fo, stderr=fe,
-                                   env=dict(os.environ, **SAN_ENV), timeout=30, preexec_fn=limit)
+                p = subprocess.run(["timeout", "-s", "KILL", "10", uft] + ARGV[c] + ["--no-pager", "-d", "d"], cwd=root,
+                                   stdout=fo, stderr=fe, env=dict(os.environ, **SAN_ENV), timeout=30, preexec_fn=limit)
             rc = p.returncode
         except subprocess.TimeoutExpired:
             rc = 124
@@ -515,10 +561,19 @@ def run_cmds(uft, root, files, env=None):
     return res
 
 
+def text_lines(content, fname):
+    """(prefix, [lines with their newline]) of a text file (info: the 40-byte binary header is the prefix)"""
+    pre, body = (content[:40], content[40:]) if fname == "info" else (b"", content)
+    return pre, body.splitlines(True)
+
+
 def e2e(ctx, objdir):
     uft = os.path.join(objdir, "uftrace")
     rng = ctx.rng
-    ndirs = ctx.n(1, 3)
+    ndirs = ctx.n(1, 2)
+    nvar = ctx.n(10, len(VARIANTS))
+    variants = [c for c, _ in VARIANTS[:nvar]]
+    allcmds = CMDS + variants
     for di in range(ndirs):
         case = gen_case(rng, ctx.n(10, 16), small=True, nested=True, minstr=3)
         root = os.path.join(ctx.scratch, "e2e%d" % di)
@@ -526,7 +581,8 @@ def e2e(ctx, objdir):
         write_dir(case, os.path.join(root, "src"))
         files = {n: open(os.path.join(root, "src", n), "rb").read() for n in sorted(os.listdir(os.path.join(root, "src")))}
         full = files["100.dat"]
-        # the model decides, for every cut of the task file, the length of the copy cut at the last whole record
+        dats = sorted(f for f in files if f.endswith(".dat"))
+        # the model decides, for every cut of the main task file, the length of the copy cut at the last whole record
         defs = ("Definition envl : list (N * N * (list aspec * list aspec)) := %s.\nDefinition rs : list rec := [%s].\n" % (coq_envl(case), ";\n ".join(coq_rec(r) for r in case["recs"])))
         r = coq.run_cases(ctx, "e2e%d" % di, PRE, defs, [
             ("ok", "wf_recs (lookup_range envl) evsize_repo rs && bytes_eqb (enc rs) %s" % coq_bytes(full)),
@@ -541,45 +597,12 @@ def e2e(ctx, objdir):
             return
         if r["model_ok"] != "true":
             ctx.broken("C12 e2e: the model no longer reports exactly the whole records on every cut of the generated task file")
-        whole = coq.parse_nat_list(r["whole"])
-        jobs = []
-        for fname, content in files.items():
-            if fname == "100.dat" or (ctx.thorough() and len(content) <= 2000):
-                cuts = list(range(len(content) + 1))
-            else:
-                # quick tier, text files: every position next to a token separator (all line boundaries +-1, after
-                # `:` `=` blank and quote) and every 3rd byte of the rest; the 40-byte binary header of info completely
-                cs = {0, len(content)} | set(range(0, len(content) + 1, 3))
-                for i, ch in enumerate(content):
-                    if ch in b":= \n\"" or (fname == "info" and i < 41):
-                        cs |= {i, i + 1, min(i + 2, len(content))}
-                if len(content) > 2000:
-                    cs = set(x for x in cs if x < 400 or x > len(content) - 400) | set(rng.randrange(len(content) + 1) for _ in range(150))
-                cuts = sorted(cs)
-            jobs += [(fname, n) for n in cuts]
-            jobs.append((fname, -1))          # the file is missing
-        canon_needed = sorted(set(whole[n] for _, n in [j for j in jobs if j[0] == "100.dat" and j[1] >= 0]) | {1})
+        whole_main = coq.parse_nat_list(r["whole"])
+        spans, _ = record_spans(case)
 
-        hung = []
-
-        def run_job(job):
-            fname, n = job
-            if len(hung) >= 3:          # a hanging command is reported by the first cuts; do not wait 20 s for each of the rest
-                return job, None
-            fs = dict(files)
-            if n < 0:
-                del fs[fname]
-            else:
-                fs[fname] = files[fname][:n]
-            r_ = run_cmds(uft, os.path.join(root, "j-%s-%d" % (fname.replace("/", "_"), n)), fs)
-            if any(v[0] in (124, 137, 153) or v[0] < 0 for v in r_.values()):
-                hung.append(job)
-            return job, r_
-
-        def run_canon(n):
-            fs = dict(files)
-            fs["100.dat"] = full[:n]
-            return n, run_cmds(uft, os.path.join(root, "c-%d" % n), fs)
+        def whole(fname, n):
+            """length of the copy cut at the last whole record (the other task files hold 16-byte records only)"""
+            return whole_main[n] if fname == "100.dat" else n - n % 16
 
         def line_start(fname, n):
             """length of the copy cut at the last complete line (info: never below its 40-byte binary header)"""
@@ -588,11 +611,82 @@ def e2e(ctx, objdir):
             return max(k, 40) if fname == "info" else k
 
         def unterminated(fname, n):
-            if n < 0 or fname == "100.dat" or (fname == "info" and n <= 40):
+            if fname.endswith(".dat") or (fname == "info" and n <= 40):
                 return False
             return line_start(fname, n) != n
 
-        text_canon_needed = sorted(set((f, line_start(f, n)) for f, n in jobs if unterminated(f, n)))
+        # ---- jobs: (file, mode, n): mode "cut" (first n bytes), "missing", "drop" (line n removed, the rest kept)
+        jobs = []
+        for fname, content in files.items():
+            if fname == "100.dat" or (ctx.thorough() and len(content) <= 2000):
+                cuts = list(range(len(content) + 1))
+            elif fname.endswith(".dat"):
+                # the payload-free files of the other tasks (quick): record boundaries +-1 and every 5th byte
+                cuts = sorted(set(x for b in range(0, len(content) + 1, 16) for x in (b - 1, b, b + 1) if 0 <= x <= len(content))
+                              | set(range(0, len(content) + 1, 5)))
+            else:
+                # quick tier, text files: every position next to a token separator (all line boundaries +-1, after
+                # `:` `=` blank and quote) and every 7th byte of the rest; the 40-byte binary header of info completely
+                cs = {0, len(content)} | set(range(0, len(content) + 1, 7))
+                for i, ch in enumerate(content):
+                    if ch in b":= \n\"" or (fname == "info" and i < 41):
+                        cs |= {i, i + 1, min(i + 2, len(content))}
+                if len(content) > 2000:
+                    cs = set(x for x in cs if x < 400 or x > len(content) - 400) | set(rng.randrange(len(content) + 1) for _ in range(150))
+                cuts = sorted(cs)
+            jobs += [(fname, "cut", n) for n in cuts]
+            jobs.append((fname, "missing", 0))
+            if fname in ("task.txt", "info"):
+                # whole-line damage stated explicitly: every single line dropped (SESS / TASK / FORK lines of task.txt,
+                # every `key:value` line of info), the other lines kept
+                jobs += [(fname, "drop", i) for i in range(len(text_lines(content, fname)[1]))]
+
+        def with_variants(job):
+            """quick tier: the option variants run on the whole-line and whole-record damage, on everything next to it,
+            and on a regular sample of the other cuts; thorough: on every job"""
+            fname, mode, n = job
+            if ctx.thorough() or mode != "cut":
+                return True
+            content = files[fname]
+            if fname.endswith(".dat"):
+                tags = classify_cut(spans, n) if fname == "100.dat" else (["at:record-boundary"] if n % 16 == 0 else [])
+                return n == len(content) or any(t.startswith("at:") for t in tags) or n % 16 == 8
+            near = [line_start(fname, n), line_start(fname, min(n + 1, len(content)))]
+            return n in (0, len(content)) or any(abs(n - k) <= 1 for k in near) or (fname == "info" and n <= 41 and n % 8 == 0) or n % 25 == 0
+
+        def content_of(job):
+            fname, mode, n = job
+            fs = dict(files)
+            if mode == "missing":
+                del fs[fname]
+            elif mode == "drop":
+                pre, ls = text_lines(files[fname], fname)
+                fs[fname] = pre + b"".join(ls[:n] + ls[n + 1:])
+            else:
+                fs[fname] = files[fname][:n]
+            return fs
+
+        hung = []
+
+        def run_job(job):
+            if len(hung) >= 3:          # a hanging command is reported by the first cuts; do not wait for each of the rest
+                return job, None
+            cmds = allcmds if with_variants(job) else CMDS
+            r_ = run_cmds(uft, os.path.join(root, "j-%s-%s-%d" % (job[0].replace("/", "_"), job[1], job[2])), content_of(job), cmds)
+            if any(v[0] in (124, 137, 153) or v[0] < 0 for v in r_.values()):
+                hung.append(job)
+            return job, r_
+
+        canon_needed = sorted(set((f, whole(f, n)) for f, m, n in jobs if m == "cut" and f.endswith(".dat") and n > 0 and whole(f, n) != n)
+                              | {(f, 1) for f in dats})
+
+        def run_canon(key):
+            fname, n = key
+            fs = dict(files)
+            fs[fname] = files[fname][:n]
+            return key, run_cmds(uft, os.path.join(root, "c-%s-%d" % (fname, n)), fs, allcmds)
+
+        text_canon_needed = sorted(set((f, line_start(f, n)) for f, m, n in jobs if m == "cut" and unterminated(f, n)))
 
         def run_text_variant(key):
             fname, n, nl = key
@@ -600,72 +694,88 @@ def e2e(ctx, objdir):
             fs[fname] = files[fname][:n] + (b"\n" if nl else b"")
             return key, run_cmds(uft, os.path.join(root, "t-%s-%d-%d" % (fname.replace("/", "_"), n, nl)), fs)
 
+        ctx.log("e2e: %d jobs, %d whole-record copies, %d complete-line copies" % (len(jobs), len(canon_needed), len(text_canon_needed)))
         with ThreadPoolExecutor(16) as ex:
             canon = dict(ex.map(run_canon, canon_needed))
+            ctx.log("e2e: copies done")
             results = list(ex.map(run_job, jobs))
+            ctx.log("e2e: jobs done")
             tcanon = dict(ex.map(run_text_variant, [(f, k, 0) for f, k in text_canon_needed]))
             # the same text followed by a newline is run only where the cut copy neither fails nor equals the canonical copy
             need_nl = []
-            for (fname, n), res in results:
-                if res is not None and unterminated(fname, n):
+            for (fname, mode, n), res in results:
+                if res is not None and mode == "cut" and unterminated(fname, n):
                     ref = tcanon[(fname, line_start(fname, n), 0)]
                     if any(res[c][0] == 0 and (res[c][0], res[c][1]) != (ref[c][0], ref[c][1]) for c in CMDS):
                         need_nl.append((fname, n, 1))
             tnl = dict(ex.map(run_text_variant, need_nl))
-        spans, _ = record_spans(case)
         partial_accepted = 0
-        for (fname, n), res in results:
+        nruns = 0
+        for (fname, mode, n), res in results:
             if res is None:
                 continue
-            content = b"" if n < 0 else files[fname][:n]
-            tags = ["e2e:file=" + ("dat" if fname.endswith(".dat") else "sym" if fname.endswith(".sym") else
-                                   "map" if fname.endswith(".map") else fname)]
-            if n < 0:
+            kind = "dat" if fname.endswith(".dat") else "sym" if fname.endswith(".sym") else "map" if fname.endswith(".map") else fname
+            tags = ["e2e:file=" + kind]
+            how = {"cut": "cut at byte %d" % n, "missing": "missing", "drop": "without its line %d" % (n + 1)}[mode]
+            if mode == "missing":
                 tags.append("e2e:file-missing")
+            elif mode == "drop":
+                pre, ls = text_lines(files[fname], fname)
+                tags.append("e2e:line-dropped:" + (ls[n][:4].decode(errors="replace") if fname == "task.txt" else
+                                                   ls[n].split(b":")[0].decode(errors="replace")))
             elif fname == "100.dat":
                 tags += ["e2e:" + t for t in classify_cut(spans, n)]
+            elif fname.endswith(".dat"):
+                tags.append("e2e:other-task:" + ("at:record-boundary" if n % 16 == 0 else "in:16-byte-header"))
             else:
-                body = content[40:] if fname == "info" else content
+                body = files[fname][:n][40:] if fname == "info" else files[fname][:n]
                 if fname == "info" and n < 40:
                     tags.append("e2e:in-binary-header")
                 elif body.endswith(b"\n") or not body:
                     tags.append("e2e:at-line-boundary")
+                    if fname == "task.txt" and 0 < n < len(files[fname]):
+                        tags.append("e2e:task.txt-trailing-lines-missing")
                 elif files[fname][n:n + 1] == b"\n":
                     tags.append("e2e:line-boundary-1")
                 else:
                     tags.append("e2e:mid-line")
-            ctx.case(key=("e2e", di, fname, n), nontrivial=n > 0, tags=tags, size=max(n, 0))
-            for c in CMDS:
+            if len(res) > len(CMDS):
+                tags.append("e2e:with-option-variants")
+            ctx.case(key=("e2e", di, fname, mode, n), nontrivial=(mode != "cut" or n > 0), tags=tags, size=max(n, 0))
+            for c in res:
+                nruns += 1
                 rc, out, err = res[c]
-                rep = {"mode": "e2e", "file": fname, "cut": n, "command": c, "rc": rc, "stderr": err[-1500:],
+                rep = {"mode": "e2e", "file": fname, "damage": mode, "cut": n, "command": c, "rc": rc, "stderr": err[-1500:],
                        "stdout": out[-600:], "case": case_json(case, full)}
                 san = ("Sanitizer" in err) or ("runtime error:" in err and not benign_ubsan(err))
                 if "runtime error:" in err and benign_ubsan(err):
                     ctx.tag("e2e:ubsan-nonnull-on-empty-table")
                 if rc == 124 or rc == 137:
-                    viol(ctx, "e2e-hang", "uftrace %s did not terminate within 10 s on a directory whose %s is cut at byte %d" % (c, fname, n), rep, True)
+                    viol(ctx, "e2e-hang", "uftrace %s did not terminate within 10 s on a directory whose %s is %s" % (c, fname, how), rep, True)
                     continue
                 if rc < 0 or 128 < rc < 160 or rc == 153:
-                    viol(ctx, "e2e-signal", "uftrace %s was killed by a signal (rc=%d) on a directory whose %s is cut at byte %d" % (c, rc, fname, n), rep, True)
+                    viol(ctx, "e2e-signal:" + c, "uftrace %s was killed by a signal (rc=%d) on a directory whose %s is %s" % (c, rc, fname, how), rep, True)
                     continue
                 if san:
-                    viol(ctx, "e2e-sanitizer:" + fname, "uftrace %s: out-of-bounds / undefined access (sanitizer report) on a directory whose %s is %s"
-                         % (c, fname, "missing" if n < 0 else "cut at byte %d" % n), rep, True)
+                    viol(ctx, "e2e-sanitizer:%s:%s" % (kind, c), "uftrace %s: crash / out-of-bounds / undefined access (sanitizer report) on a "
+                         "directory whose %s is %s" % (c, fname, how), rep, True)
                     continue
-                if fname == "100.dat" and n > 0 and whole[n] != n:
-                    wl = whole[n]
-                    ref = canon[wl if wl > 0 else 1][c]
+                if mode != "cut":
+                    continue
+                if fname.endswith(".dat") and n > 0 and whole(fname, n) != n:
+                    wl = whole(fname, n)
+                    ref = canon[(fname, wl if wl > 0 else 1)][c]
                     rep["expected_stdout"] = ref[1][-600:]
                     rep["expected_rc"] = ref[0]
                     if (rc, out) == (ref[0], ref[1]):
                         pass                      # exactly as for the copy cut at the last whole record
-                    elif c != "info" and rc != 0 and err.strip() and ref[1].startswith(out):
+                    elif not c.startswith("info") and rc != 0 and err.strip() and ref[1].startswith(out):
                         ctx.tag("e2e:diagnostic-exit")      # allowed by the property text; the repaired reader has none
                     else:
-                        viol(ctx, "e2e-output:" + c, "uftrace %s on a task file cut at byte %d neither prints what it prints on the "
+                        viol(ctx, "e2e-output:" + c, "uftrace %s on a task file (%s) cut at byte %d neither prints what it prints on the "
                              "copy cut at the last whole record (byte %d) nor stops with a diagnostic and a prefix of that output"
-                             % (c, n, wl), rep)
-                elif unterminated(fname, n):
+                             % (c, fname, n, wl), rep)
+                elif c in CMDS and unterminated(fname, n):
                     k = line_start(fname, n)
                     ref = tcanon[(fname, k, 0)][c]
                     if rc != 0 and err.strip():
@@ -685,6 +795,8 @@ def e2e(ctx, objdir):
                                  "is completed by a newline, and gives no diagnostic" % (c, fname, n, k), rep)
         ctx.extra["e2e_text_runs_unterminated_rest_taken_as_a_line"] = \
             ctx.extra.get("e2e_text_runs_unterminated_rest_taken_as_a_line", 0) + partial_accepted
+        ctx.extra["e2e_command_runs"] = ctx.extra.get("e2e_command_runs", 0) + nruns
+        ctx.extra["e2e_option_variants"] = variants
         shutil.rmtree(root, ignore_errors=True)
 
 
@@ -703,7 +815,9 @@ def common_meta(ctx):
                 "quick / 700 thorough, else all record/argument boundaries +-2 and 60 random) of generated task files read by the "
                 "real read_task_ustack; (2) e2e: every cut of every file of a generated directory (and each file missing) x the five "
                 "commands; distinct = distinct (file content, cut); non-trivial = cut beyond the first record header (stream) / "
-                "non-empty file (e2e)")
+                "non-empty file (e2e); e2e directories have three tasks (main with payloads, forked child, thread); besides prefix cuts "
+                "each file is removed and every single line of task.txt / info is dropped; the option variants listed in "
+                "coverage.e2e_option_variants run on whole-line / whole-record damage, its neighbours and a sample (quick) or on every job (thorough)")
     ctx.trusted = [
         "Coq 8.16.1 kernel incl. vm_compute; no axioms (Print Assumptions: closed under the global context)",
         "hand-written model coq/theories/C12/Model.v (read_stream true) of utils/fstack.c (__read_task_ustack, read_task_arg(s), "
@@ -743,8 +857,11 @@ def run(ctx):
         ccases.append((case, full, res))
     if ccases:
         verdict_stream(ctx, ccases, "corpus")
+    ctx.log("corpus done")
     stream_tie(ctx, objdir, harness)
+    ctx.log("stream tie done")
     e2e(ctx, objdir)
+    ctx.log("e2e done")
 
 
 def replay(ctx, obj):
@@ -763,15 +880,19 @@ def replay(ctx, obj):
         write_dir(case, d)
         files = {x: open(os.path.join(d, x), "rb").read() for x in os.listdir(d)}
         fname = obj["file"]
-        if n < 0:
+        damage = obj.get("damage", "missing" if n < 0 else "cut")
+        if damage == "missing":
             del files[fname]
+        elif damage == "drop":
+            pre, ls = text_lines(files[fname], fname)
+            files[fname] = pre + b"".join(ls[:n] + ls[n + 1:])
         else:
             files[fname] = files[fname][:n]
-        res = run_cmds(os.path.join(objdir, "uftrace"), os.path.join(ctx.scratch, "r", "job"), files)
+        res = run_cmds(os.path.join(objdir, "uftrace"), os.path.join(ctx.scratch, "r", "job"), files, [obj["command"]])
         rc, out, err = res[obj["command"]]
         ctx.case(key="replay", sample={"rc": rc, "stdout": out[-600:], "stderr": err[-1500:]})
         ctx.log("replayed uftrace %s with %s cut at %s: rc=%d\n%s\n%s" % (obj["command"], fname, n, rc, out[-600:], err[-1500:]))
-        if "Sanitizer" in err or ("runtime error:" in err and not benign_ubsan(err)) or rc in (124, 137):
+        if "Sanitizer" in err or ("runtime error:" in err and not benign_ubsan(err)) or rc in (124, 137, 153) or rc < 0 or 128 < rc < 160:
             ctx.violation("replayed case still fails: " + obj.get("what", ""), obj, True)
         return
     cuts = [n] + ([size] if n != size else []) if n is not None else list(range(size + 1))
